@@ -131,6 +131,11 @@ Proof.
 Qed.
 Print Assumptions C09_oracles_ok.
 
+(* the boolean test of the hypotheses that the correspondence compares with the harness' own test *)
+Theorem C09_path_hyp_bool : forall st, path_hypb st = true -> PathHyp st.
+Proof. exact path_hypb_sound. Qed.
+Print Assumptions C09_path_hyp_bool.
+
 (* ---------------- example (non-vacuity) ---------------- *)
 (* depot 0 (0,inf); customer 1: pick-up of 4 (demand -4), window (2,6), only an exit arc; customer 2:
    delivery of 3, window (0,5), served by the pool route 0-2-0.  Capacity 5, initial load 3: customer 1
@@ -276,6 +281,10 @@ Proof.
   destruct (IH I' HI' Hok' ltac:(lia) HH') as [A B]. simpl. split; [congruence|]. constructor; eauto.
 Qed.
 Print Assumptions C09_total_seq_repeated.
+
+Theorem C09_seq_hyp_bool : forall J, seq_hypb J = true -> seq_ok J /\ (3 <= iL J)%nat /\ SeqHyp (ig J).
+Proof. exact seq_hypb_sound. Qed.
+Print Assumptions C09_seq_hyp_bool.
 
 (* ---------------- example (non-vacuity) ---------------- *)
 (* strict class; depot 0 (0,inf), customers 1 (0,5), 2 (1,6), 3 (2,4); arcs 0->1, 1->2; one vehicle, four
